@@ -1,10 +1,1059 @@
-//! `sim-*` harness commands.
+//! `sim-*` harness commands: run the real simulator (`sim_advanced` / `sim`) on generated or
+//! replayed cases and print inputs, the oracle log (hook log of every transition draw and raw
+//! distribution sample made by either framework, in order) and the observed trace.
+//!
+//! Line protocol (one case):
+//! ```text
+//! case <id> <kind>
+//! mc <hex bincode>            one line per client machine
+//! ms <hex bincode>            one line per server machine
+//! tr <n> <ns>:<s|r> ...       the input trace
+//! delay <ns>
+//! orc <n_u> <u hex…> <n_d> <d hex…>
+//! run <name> <adv|sim> <pps|-> <mtl> <msi> <cont> <oc> <on> <fpc> <fbc> <fps> <fbs> <seed|->
+//! o res ok <n> | o res panic <class>
+//! o <ns offset from first base event> <c|s> <event> <padding> <bypass> <replace>
+//! ...                          (more orc/run/o groups: one per run of the case)
+//! end
+//! ```
 
+use crate::genm::{self, DistMode, GenCfg};
+use crate::util::{hex, unhex, Prng};
+use enum_map::enum_map;
+use maybenot::action::Action;
+use maybenot::constants::STATE_END;
+use maybenot::counter::{Counter, Operation};
+use maybenot::dist::{Dist, DistType};
+use maybenot::event::Event;
+use maybenot::state::{State, Trans};
+use maybenot::verif::Entry;
+use maybenot::{Machine, Timer, TriggerEvent};
+use maybenot_simulator::network::Network;
+use maybenot_simulator::{parse_trace, sim, sim_advanced, SimEvent, SimulatorArgs};
+use std::fmt::Write as _;
 use std::io::Write;
+use std::panic::{catch_unwind, AssertUnwindSafe};
+use std::time::Duration;
+
+#[derive(Clone, Debug)]
+pub struct RunSpec {
+    pub name: String,
+    /// true = `sim_advanced`, false = `sim`
+    pub adv: bool,
+    pub pps: Option<usize>,
+    pub mtl: usize,
+    pub msi: usize,
+    pub cont: bool,
+    pub oc: bool,
+    pub on: bool,
+    pub fpc: f64,
+    pub fbc: f64,
+    pub fps: f64,
+    pub fbs: f64,
+    pub seed: Option<u64>,
+}
+
+#[derive(Clone, Debug)]
+pub struct SimCase {
+    pub id: String,
+    pub kind: String,
+    pub mc: Vec<Machine>,
+    pub ms: Vec<Machine>,
+    pub trace: Vec<(u64, bool)>,
+    pub delay_ns: u64,
+    pub runs: Vec<RunSpec>,
+}
+
+pub fn sim_ev_str(e: &TriggerEvent) -> String {
+    crate::fw::ev_str(e)
+}
+
+fn panic_class(p: &Box<dyn std::any::Any + Send>) -> &'static str {
+    let msg = if let Some(s) = p.downcast_ref::<&str>() {
+        s.to_string()
+    } else if let Some(s) = p.downcast_ref::<String>() {
+        s.clone()
+    } else {
+        String::new()
+    };
+    if msg.contains("divide by zero") {
+        "divzero"
+    } else if msg.contains("moves time backwards") {
+        "backwards"
+    } else if msg.contains("no internal action found") {
+        "nointernal"
+    } else if msg.contains("no action found") {
+        "noaction"
+    } else if msg.contains("cancel action in scheduled") {
+        "cancelsched"
+    } else if msg.contains("update timer action in scheduled") {
+        "timersched"
+    } else if msg.contains("Option::unwrap()") {
+        "unwrap"
+    } else if msg.contains("Result::unwrap()") {
+        "fwnew"
+    } else if msg.contains("overflow when") {
+        "dur"
+    } else if msg.contains("index out of bounds") {
+        "oob"
+    } else {
+        "other"
+    }
+}
+
+fn trace_string(trace: &[(u64, bool)]) -> String {
+    let mut s = String::new();
+    for (t, sent) in trace {
+        let _ = writeln!(s, "{},{}", t, if *sent { "s" } else { "r" });
+    }
+    s
+}
+
+pub struct RunOut {
+    pub log: Vec<Entry>,
+    pub res: Result<Vec<(i128, SimEvent)>, &'static str>,
+}
+
+/// set when a run did not return within the watchdog limit (its thread is still spinning)
+pub static TIMED_OUT: std::sync::atomic::AtomicBool = std::sync::atomic::AtomicBool::new(false);
+
+/// watchdog limit for one call of the simulator
+const WATCHDOG_SECS: u64 = 20;
+
+/// Run the real simulator once, in its own thread so that a run that never returns (a hang is a
+/// C19 violation, not a reason for the harness to hang) can be reported.
+pub fn run_once(c: &SimCase, r: &RunSpec) -> RunOut {
+    if TIMED_OUT.load(std::sync::atomic::Ordering::SeqCst) {
+        // a previous run is still spinning in the background: do not start more work
+        return RunOut { log: vec![], res: Err("skipped-after-timeout") };
+    }
+    let (tx, rx) = std::sync::mpsc::channel();
+    let c2 = c.clone();
+    let r2 = r.clone();
+    let builder = std::thread::Builder::new().stack_size(64 << 20);
+    let handle = builder.spawn(move || {
+        let out = run_once_here(&c2, &r2);
+        let _ = tx.send(out);
+    });
+    if handle.is_err() {
+        return run_once_here(c, r);
+    }
+    match rx.recv_timeout(Duration::from_secs(WATCHDOG_SECS)) {
+        Ok(out) => out,
+        Err(_) => {
+            TIMED_OUT.store(true, std::sync::atomic::Ordering::SeqCst);
+            RunOut { log: vec![], res: Err("timeout") }
+        }
+    }
+}
+
+fn run_once_here(c: &SimCase, r: &RunSpec) -> RunOut {
+    let delay = Duration::from_nanos(c.delay_ns);
+    let text = trace_string(&c.trace);
+    maybenot::verif::enable(true);
+    let _ = maybenot::verif::take();
+    let res = catch_unwind(AssertUnwindSafe(|| {
+        let network = Network::new(delay, r.pps);
+        let mut sq = parse_trace(&text, network);
+        let first = sq.get_first_time();
+        let out = if r.adv {
+            let mut args = SimulatorArgs::new(network, r.mtl, r.on);
+            args.max_sim_iterations = r.msi;
+            args.continue_after_all_normal_packets_processed = r.cont;
+            args.only_client_events = r.oc;
+            args.max_padding_frac_client = r.fpc;
+            args.max_blocking_frac_client = r.fbc;
+            args.max_padding_frac_server = r.fps;
+            args.max_blocking_frac_server = r.fbs;
+            args.insecure_rng_seed = r.seed;
+            sim_advanced(&c.mc, &c.ms, &mut sq, &args)
+        } else {
+            sim(&c.mc, &c.ms, &mut sq, delay, r.mtl, r.on)
+        };
+        let first = first.expect("non-empty output needs a first time");
+        out.into_iter()
+            .map(|e| {
+                let off = if e.time >= first {
+                    e.time.duration_since(first).as_nanos() as i128
+                } else {
+                    -(first.duration_since(e.time).as_nanos() as i128)
+                };
+                (off, e)
+            })
+            .collect::<Vec<_>>()
+    }));
+    let log = maybenot::verif::take();
+    maybenot::verif::enable(false);
+    RunOut { log, res: res.map_err(|p| panic_class(&p)) }
+}
+
+fn fmt_orc(out: &mut String, log: &[Entry]) {
+    let us: Vec<String> = log.iter().filter_map(|e| if let Entry::Draw { bits } = e { Some(format!("{:08x}", bits)) } else { None }).collect();
+    let ds: Vec<String> = log.iter().filter_map(|e| if let Entry::DistRaw { bits } = e { Some(format!("{:016x}", bits)) } else { None }).collect();
+    let _ = writeln!(out, "orc {} {} {} {}", us.len(), us.join(" "), ds.len(), ds.join(" "));
+}
+
+fn fmt_run_line(out: &mut String, r: &RunSpec) {
+    let _ = writeln!(
+        out,
+        "run {} {} {} {} {} {} {} {} {:016x} {:016x} {:016x} {:016x} {}",
+        r.name,
+        if r.adv { "adv" } else { "sim" },
+        r.pps.map(|p| p.to_string()).unwrap_or_else(|| "-".into()),
+        r.mtl,
+        r.msi,
+        r.cont as u8,
+        r.oc as u8,
+        r.on as u8,
+        r.fpc.to_bits(),
+        r.fbc.to_bits(),
+        r.fps.to_bits(),
+        r.fbs.to_bits(),
+        r.seed.map(|p| p.to_string()).unwrap_or_else(|| "-".into()),
+    );
+}
+
+fn fmt_events(out: &mut String, evs: &[(i128, SimEvent)]) {
+    for (off, e) in evs {
+        let (b, rp) = e.verif_flags();
+        let _ = writeln!(
+            out,
+            "o {} {} {} {} {} {}",
+            off,
+            if e.client { "c" } else { "s" },
+            sim_ev_str(&e.event),
+            e.contains_padding as u8,
+            b as u8,
+            rp as u8
+        );
+    }
+}
+
+/// Run every run of the case on the real code and return the protocol text.
+pub fn run_case(c: &SimCase) -> String {
+    let mut out = String::new();
+    let _ = writeln!(out, "case {} {}", c.id, c.kind);
+    for m in &c.mc {
+        let _ = writeln!(out, "mc {}", hex(&genm::machine_bytes(m)));
+    }
+    for m in &c.ms {
+        let _ = writeln!(out, "ms {}", hex(&genm::machine_bytes(m)));
+    }
+    let tr: Vec<String> = c.trace.iter().map(|(t, s)| format!("{}:{}", t, if *s { "s" } else { "r" })).collect();
+    let _ = writeln!(out, "tr {} {}", c.trace.len(), tr.join(" "));
+    let _ = writeln!(out, "delay {}", c.delay_ns);
+    for r in &c.runs {
+        let o = run_once(c, r);
+        fmt_orc(&mut out, &o.log);
+        fmt_run_line(&mut out, r);
+        match o.res {
+            Ok(evs) => {
+                let _ = writeln!(out, "o res ok {}", evs.len());
+                fmt_events(&mut out, &evs);
+            }
+            Err(cls) => {
+                let _ = writeln!(out, "o res panic {}", cls);
+            }
+        }
+    }
+    let _ = writeln!(out, "end");
+    out
+}
+
+/* ---------------- machine templates ---------------- */
+
+/// microsecond constants at the time scale of the generated traces
+const US: &[f64] = &[0.0, 0.0, 1.0, 10.0, 500.0, 1000.0, 2000.0, 5000.0, 20_000.0, 100_000.0, 300_000.0, 1_000_000.0];
+
+fn konst(v: f64) -> Dist {
+    Dist { dist: DistType::Uniform { low: v, high: v }, start: 0.0, max: 0.0 }
+}
+
+fn sdist(p: &mut Prng) -> Dist {
+    match p.below(8) {
+        0 => {
+            let lo = *p.pick(US);
+            let hi = lo + *p.pick(&[1.0, 100.0, 5000.0, 50_000.0]);
+            Dist { dist: DistType::Uniform { low: lo, high: hi }, start: 0.0, max: 0.0 }
+        }
+        1 => {
+            let d = match p.below(4) {
+                0 => DistType::Normal { mean: *p.pick(&[1000.0, 20_000.0]), stdev: *p.pick(&[100.0, 5000.0]) },
+                1 => DistType::Pareto { scale: *p.pick(&[10.0, 1000.0]), shape: 2.0 },
+                2 => DistType::Geometric { probability: 0.01 },
+                _ => DistType::Weibull { scale: 5000.0, shape: 1.5 },
+            };
+            Dist { dist: d, start: 0.0, max: *p.pick(&[0.0, 50_000.0]) }
+        }
+        _ => konst(*p.pick(US)),
+    }
+}
+
+fn slimit(p: &mut Prng) -> Option<Dist> {
+    match p.below(6) {
+        0 => Some(konst(1.0)),
+        1 => Some(konst(*p.pick(&[2.0, 3.0, 5.0, 20.0]))),
+        2 => Some(Dist { dist: DistType::Uniform { low: 0.0, high: 4.0 }, start: 0.0, max: 0.0 }),
+        _ => None,
+    }
+}
+
+fn tr1(to: usize) -> Vec<Trans> {
+    vec![Trans(to, 1.0)]
+}
+
+fn trp(p: &mut Prng, a: usize, b: usize) -> Vec<Trans> {
+    match p.below(4) {
+        0 => vec![Trans(a, 0.5), Trans(b, 0.5)],
+        1 => vec![Trans(a, 0.75)],
+        2 => vec![Trans(a, 0.3), Trans(b, 0.3)],
+        _ => vec![Trans(a, 1.0)],
+    }
+}
+
+fn pad_action(p: &mut Prng, bypass: bool, replace: bool) -> Action {
+    Action::SendPadding { bypass, replace, timeout: sdist(p), limit: slimit(p) }
+}
+
+fn block_action(p: &mut Prng, bypass: bool, replace: bool) -> Action {
+    Action::BlockOutgoing { bypass, replace, timeout: sdist(p), duration: sdist(p), limit: slimit(p) }
+}
+
+fn timer_action(p: &mut Prng, replace: bool) -> Action {
+    Action::UpdateTimer { replace, duration: sdist(p), limit: slimit(p) }
+}
+
+fn pad_action_r(p: &mut Prng) -> Action {
+    let b = p.chance(1, 2);
+    let r = p.chance(1, 2);
+    pad_action(p, b, r)
+}
+
+fn block_action_r(p: &mut Prng) -> Action {
+    let b = p.chance(1, 2);
+    let r = p.chance(1, 2);
+    block_action(p, b, r)
+}
+
+fn timer_action_r(p: &mut Prng) -> Action {
+    let r = p.chance(1, 2);
+    timer_action(p, r)
+}
+
+fn start_event(p: &mut Prng) -> Event {
+    *p.pick(&[Event::NormalSent, Event::NormalSent, Event::TunnelSent, Event::NormalRecv, Event::TunnelRecv, Event::PaddingRecv])
+}
+
+fn machine(states: Vec<State>, p: &mut Prng, budgets: bool) -> Machine {
+    let (app, mpf, abm, mbf) = if budgets && p.chance(1, 3) {
+        (
+            *p.pick(&[0u64, 1, 3, 1000]),
+            *p.pick(&[0.0, 0.5, 1.0, 0.1]),
+            *p.pick(&[0u64, 10, 1000, 1_000_000]),
+            *p.pick(&[0.0, 0.5, 1.0, 0.01]),
+        )
+    } else {
+        (0, 0.0, 0, 0.0)
+    };
+    let m = Machine { allowed_padding_packets: app, max_padding_frac: mpf, allowed_blocked_microsec: abm, max_blocking_frac: mbf, states };
+    if let Err(e) = m.validate() {
+        panic!("template produced an invalid machine: {e}");
+    }
+    m
+}
+
+/// padding machine: start event -> padding state; PaddingSent loops or returns
+fn t_padding(p: &mut Prng) -> Machine {
+    let ev = start_event(p);
+    let s0 = State::new(enum_map! { e if e == ev => tr1(1), _ => vec![] });
+    let back = trp(p, 1, 0);
+    let again = start_event(p);
+    let mut s1 = State::new(enum_map! {
+        Event::PaddingSent => back.clone(),
+        Event::LimitReached => tr1(0),
+        e if e == again => tr1(1),   // re-issue before firing
+        _ => vec![] });
+    s1.action = Some(pad_action_r(p));
+    machine(vec![s0, s1], p, true)
+}
+
+/// blocking machine with a follow-up padding state (all four flag combinations on both)
+fn t_blocking(p: &mut Prng) -> Machine {
+    let ev = start_event(p);
+    let s0 = State::new(enum_map! { e if e == ev => tr1(1), _ => vec![] });
+    let nxt = trp(p, 2, 0);
+    let mut s1 = State::new(enum_map! {
+        Event::BlockingBegin => nxt.clone(),
+        Event::LimitReached => tr1(0),
+        _ => vec![] });
+    s1.action = Some(block_action_r(p));
+    let after = trp(p, 2, 0);
+    let mut s2 = State::new(enum_map! {
+        Event::PaddingSent => after.clone(),
+        Event::BlockingEnd => tr1(0),
+        Event::LimitReached => tr1(0),
+        _ => vec![] });
+    s2.action = Some(pad_action_r(p));
+    machine(vec![s0, s1, s2], p, true)
+}
+
+/// two blocking actions in a row with independent flags (extension / replacement of a block),
+/// then padding with independent flags
+fn t_blocking2(p: &mut Prng) -> Machine {
+    let ev = start_event(p);
+    let s0 = State::new(enum_map! { e if e == ev => tr1(1), _ => vec![] });
+    let mut s1 = State::new(enum_map! { Event::BlockingBegin => tr1(2), _ => vec![] });
+    s1.action = Some(block_action_r(p));
+    let mut s2 = State::new(enum_map! { Event::BlockingBegin => tr1(3), Event::BlockingEnd => tr1(0), _ => vec![] });
+    s2.action = Some(block_action_r(p));
+    let back = trp(p, 3, 0);
+    let mut s3 = State::new(enum_map! { Event::PaddingSent => back.clone(), Event::BlockingEnd => tr1(0), Event::LimitReached => tr1(0), _ => vec![] });
+    s3.action = Some({ let b = p.chance(2, 3); let r = p.chance(1, 2); pad_action(p, b, r) });
+    machine(vec![s0, s1, s2, s3], p, false)
+}
+
+/// a pair for one side: a blocker (long block on the first packets) and a padder that sends
+/// replace padding while the block is active, so queued normal packets get swapped in
+fn t_replace_pair(p: &mut Prng) -> Vec<Machine> {
+    let b1 = p.chance(1, 2);
+    let s0 = State::new(enum_map! { Event::NormalSent => tr1(1), _ => vec![] });
+    let mut s1 = State::new(enum_map! { Event::BlockingEnd => tr1(0), _ => vec![] });
+    s1.action = Some(Action::BlockOutgoing {
+        bypass: b1,
+        replace: p.chance(1, 3),
+        timeout: konst(*p.pick(&[0.0, 0.0, 100.0])),
+        duration: konst(*p.pick(&[20_000.0, 100_000.0, 300_000.0, 1_000_000.0])),
+        limit: None,
+    });
+    let blocker = machine(vec![s0, s1], p, false);
+    let q0 = State::new(enum_map! { Event::BlockingBegin => tr1(1), _ => vec![] });
+    let again = trp(p, 1, 0);
+    let mut q1 = State::new(enum_map! { Event::PaddingSent => again.clone(), Event::BlockingEnd => tr1(0), _ => vec![] });
+    q1.action = Some(Action::SendPadding {
+        bypass: p.chance(2, 3),
+        replace: p.chance(4, 5),
+        timeout: konst(*p.pick(&[0.0, 1000.0, 5000.0, 30_000.0])),
+        limit: if p.chance(1, 2) { Some(konst(*p.pick(&[1.0, 3.0, 6.0]))) } else { None },
+    });
+    let padder = machine(vec![q0, q1], p, false);
+    vec![blocker, padder]
+}
+
+/// internal timer machine: UpdateTimer, then a second UpdateTimer on TimerBegin (longest /
+/// replace rule, same-instant update), padding on TimerEnd
+fn t_timer(p: &mut Prng) -> Machine {
+    let ev = start_event(p);
+    let s0 = State::new(enum_map! { e if e == ev => tr1(1), _ => vec![] });
+    let again = start_event(p);
+    let n1 = trp(p, 2, 1);
+    let mut s1 = State::new(enum_map! {
+        Event::TimerBegin => n1.clone(),
+        Event::TimerEnd => tr1(3),
+        e if e == again => tr1(1),
+        _ => vec![] });
+    s1.action = Some(timer_action_r(p));
+    let mut s2 = State::new(enum_map! {
+        Event::TimerEnd => tr1(3),
+        Event::TimerBegin => tr1(0),
+        e if e == again => tr1(1),
+        _ => vec![] });
+    s2.action = Some(timer_action_r(p));
+    let fin = trp(p, 0, 1);
+    let mut s3 = State::new(enum_map! { Event::PaddingSent => fin.clone(), Event::LimitReached => tr1(0), _ => vec![] });
+    s3.action = Some({ let r = p.chance(1, 2); pad_action(p, false, r) });
+    machine(vec![s0, s1, s2, s3], p, false)
+}
+
+/// schedules something (padding / blocking / timer) and cancels it on a later event
+fn t_cancel(p: &mut Prng) -> Machine {
+    let ev = start_event(p);
+    let s0 = State::new(enum_map! { e if e == ev => tr1(1), _ => vec![] });
+    let cancel_on = *p.pick(&[Event::TunnelSent, Event::NormalRecv, Event::TunnelRecv, Event::NormalSent, Event::TimerBegin]);
+    let mut s1 = State::new(enum_map! {
+        e if e == cancel_on => tr1(2),
+        Event::PaddingSent => tr1(0),
+        Event::BlockingBegin => tr1(0),
+        Event::TimerEnd => tr1(0),
+        _ => vec![] });
+    s1.action = Some(match p.below(3) {
+        0 => pad_action_r(p),
+        1 => block_action_r(p),
+        _ => timer_action_r(p),
+    });
+    let mut s2 = State::new(enum_map! { e if e == ev => tr1(1), Event::TimerEnd => tr1(1), _ => vec![] });
+    s2.action = Some(Action::Cancel { timer: *p.pick(&[Timer::Action, Timer::Internal, Timer::All]) });
+    machine(vec![s0, s1, s2], p, false)
+}
+
+/// counter machine: counts normal packets down from a sampled value, pads on CounterZero
+fn t_counter(p: &mut Prng) -> Machine {
+    let mut s0 = State::new(enum_map! { Event::NormalSent => tr1(1), Event::NormalRecv => tr1(1), _ => vec![] });
+    s0.counter = (Some(Counter::new_dist(Operation::Set, konst(*p.pick(&[1.0, 2.0, 4.0])))), None);
+    let mut s1 = State::new(enum_map! {
+        Event::NormalSent => tr1(1),
+        Event::TunnelRecv => tr1(1),
+        Event::CounterZero => tr1(2),
+        _ => vec![] });
+    s1.counter = (Some(Counter::new(Operation::Decrement)), if p.chance(1, 2) { Some(Counter::new(Operation::Increment)) } else { None });
+    let mut s2 = State::new(enum_map! { Event::PaddingSent => tr1(0), Event::LimitReached => tr1(0), _ => vec![] });
+    s2.action = Some(pad_action_r(p));
+    machine(vec![s0, s1, s2], p, true)
+}
+
+/// signalling machine: signals on an event, pads / blocks when signalled
+fn t_signal(p: &mut Prng) -> Machine {
+    use maybenot::constants::STATE_SIGNAL;
+    let ev = start_event(p);
+    let s0 = State::new(enum_map! {
+        e if e == ev => vec![Trans(STATE_SIGNAL, 0.5), Trans(1, 0.25)],
+        Event::Signal => tr1(1),
+        _ => vec![] });
+    let mut s1 = State::new(enum_map! {
+        Event::PaddingSent => tr1(0),
+        Event::BlockingBegin => tr1(0),
+        Event::Signal => vec![Trans(STATE_END, 0.1), Trans(0, 0.5)],
+        _ => vec![] });
+    s1.action = Some(if p.chance(2, 3) { pad_action_r(p) } else { block_action_r(p) });
+    machine(vec![s0, s1], p, false)
+}
+
+/// endless padding loop (needs an iteration or length cap)
+fn t_loop(p: &mut Prng) -> Machine {
+    let mut s0 = State::new(enum_map! { Event::PaddingSent => tr1(1), Event::NormalSent => tr1(1), Event::TunnelRecv => tr1(1), _ => vec![] });
+    s0.action = Some(Action::SendPadding { bypass: p.chance(1, 2), replace: p.chance(1, 2), timeout: konst(*p.pick(&[0.0, 1.0, 3000.0])), limit: None });
+    let mut s1 = State::new(enum_map! { Event::PaddingSent => tr1(0), Event::BlockingEnd => tr1(0), _ => vec![] });
+    s1.action = Some(Action::SendPadding { bypass: p.chance(1, 2), replace: p.chance(1, 2), timeout: konst(*p.pick(&[0.0, 10.0, 20_000.0])), limit: None });
+    machine(vec![s0, s1], p, true)
+}
+
+/// random machine from genm with its action timings rescaled to the trace's time scale
+fn t_random(p: &mut Prng) -> Machine {
+    let mut cfg = GenCfg::default();
+    cfg.dist = *p.pick(&[DistMode::Const, DistMode::Uniform, DistMode::All]);
+    cfg.max_states = p.range(1, 5) as usize;
+    cfg.density = *p.pick(&[25, 40, 60]);
+    cfg.budgets = p.chance(1, 2);
+    let mut m = genm::gen_machine(p, &cfg);
+    for s in m.states.iter_mut() {
+        if let Some(a) = s.action.as_mut() {
+            if p.chance(3, 4) {
+                match a {
+                    Action::SendPadding { timeout, .. } => *timeout = sdist(p),
+                    Action::BlockOutgoing { timeout, duration, .. } => {
+                        *timeout = sdist(p);
+                        *duration = sdist(p);
+                    }
+                    Action::UpdateTimer { duration, .. } => *duration = sdist(p),
+                    Action::Cancel { .. } => {}
+                }
+            }
+        }
+    }
+    if m.validate().is_err() {
+        return t_padding(p);
+    }
+    m
+}
+
+pub fn gen_sim_machine(p: &mut Prng, allow_loop: bool) -> Machine {
+    match p.below(if allow_loop { 12 } else { 11 }) {
+        0 | 1 => t_padding(p),
+        2 | 3 => t_blocking(p),
+        4 => t_blocking2(p),
+        5 | 6 => t_timer(p),
+        7 => t_cancel(p),
+        8 => t_counter(p),
+        9 => t_signal(p),
+        10 => t_random(p),
+        _ => t_loop(p),
+    }
+}
+
+/* ---------------- traces and cases ---------------- */
+
+pub fn gen_trace(p: &mut Prng) -> Vec<(u64, bool)> {
+    let n = match p.below(6) {
+        0 => p.range(1, 3),
+        1 | 2 => p.range(2, 12),
+        _ => p.range(5, 60),
+    };
+    let style = p.below(5);
+    let mut t: u64 = if p.chance(1, 4) { p.below(50_000_000) } else { 0 };
+    let mut out = Vec::new();
+    let mut dir = p.chance(2, 3);
+    for _ in 0..n {
+        let gap = match style {
+            0 => 0,                                         // everything at one instant
+            1 => *p.pick(&[0, 0, 0, 1, 1000, 50_000]),      // dense burst
+            2 => *p.pick(&[0, 1_000_000, 5_000_000, 20_000_000, 100_000_000, 100_000_001, 99_999_999]),
+            3 => p.below(3_000_000_000),                    // up to seconds
+            _ => match p.below(8) {
+                0 | 1 => 0,
+                2 => 1,
+                3 => p.below(2_000_000),
+                4 => p.below(200_000_000),
+                5 => 1_000_000_000,
+                6 => 100_000_000,
+                _ => p.below(2_500_000_000),
+            },
+        };
+        t += gap;
+        if !p.chance(2, 3) {
+            dir = !dir;
+        }
+        out.push((t, dir));
+    }
+    out
+}
+
+const DELAYS: &[u64] = &[0, 1_000, 1_000_000, 10_000_000, 250_000_000];
+const PROBE_ITERS: usize = 1500;
+
+fn base_run(name: &str, p: &mut Prng, pps: Option<usize>) -> RunSpec {
+    RunSpec {
+        name: name.into(),
+        adv: true,
+        pps,
+        mtl: *p.pick(&[0, 0, 0, 1, 5, 30, 200]),
+        msi: *p.pick(&[0, 0, 0, 1, 7, 60, 400, 1500]),
+        cont: p.chance(1, 3),
+        oc: p.chance(1, 4),
+        on: p.chance(1, 3),
+        fpc: *p.pick(&[0.0, 0.0, 0.0, 0.5, 1.0, 0.1]),
+        fbc: *p.pick(&[0.0, 0.0, 0.0, 0.5, 1.0, 0.05]),
+        fps: *p.pick(&[0.0, 0.0, 0.0, 0.5, 1.0, 0.1]),
+        fbs: *p.pick(&[0.0, 0.0, 0.0, 0.5, 1.0, 0.05]),
+        seed: Some(p.next()),
+    }
+}
+
+/// Complete the list of runs of a case from its main run: determinism re-run, the unfiltered
+/// uncapped reference run, the three filter settings, and a run through `sim`.
+fn expand_runs(c: &mut SimCase, mut main: RunSpec, p: &mut Prng) {
+    // an uncapped iteration count is only used when the simulation ends on its own
+    let mut probe = main.clone();
+    probe.name = "probe".into();
+    probe.mtl = 0;
+    probe.oc = false;
+    probe.on = false;
+    probe.msi = PROBE_ITERS;
+    let self_terminating = match run_once(c, &probe).res {
+        Ok(evs) => evs.len() < PROBE_ITERS,
+        Err(_) => true,
+    };
+    if main.msi == 0 && !self_terminating {
+        main.msi = *p.pick(&[40, 300, PROBE_ITERS]);
+    }
+    let mut det = main.clone();
+    det.name = "det".into();
+    let mut u = main.clone();
+    u.name = "u".into();
+    u.mtl = 0;
+    u.oc = false;
+    u.on = false;
+    let mut runs = vec![main.clone(), det, u.clone()];
+    for (oc, on, name) in [(true, false, "f10"), (false, true, "f01"), (true, true, "f11")] {
+        let mut f = u.clone();
+        f.name = name.into();
+        f.oc = oc;
+        f.on = on;
+        runs.push(f);
+    }
+    // a capped, filtered variant of the reference run (prefix property)
+    let mut cap = u.clone();
+    cap.name = "cap".into();
+    cap.mtl = *p.pick(&[1, 2, 5, 17, 60]);
+    cap.oc = p.chance(1, 2);
+    cap.on = p.chance(1, 2);
+    runs.push(cap);
+    // `sim`: thread RNG, no iteration cap: bounded through the length cap unless there are no machines
+    let no_machines = c.mc.is_empty() && c.ms.is_empty();
+    let s = RunSpec {
+        name: "sim".into(),
+        adv: false,
+        pps: None,
+        mtl: if no_machines { *p.pick(&[0, 0, 3, 40]) } else { p.range(1, 400) as usize },
+        msi: 0,
+        cont: false,
+        oc: false,
+        on: if no_machines { p.chance(1, 2) } else { false },
+        fpc: 0.0,
+        fbc: 0.0,
+        fps: 0.0,
+        fbs: 0.0,
+        seed: None,
+    };
+    runs.push(s);
+    c.runs = runs;
+}
+
+fn gen_pps(p: &mut Prng) -> Option<usize> {
+    match p.below(40) {
+        0..=23 => None,
+        24 | 25 => Some(1),
+        26 | 27 => Some(2),
+        28..=30 => Some(10),
+        31 | 32 => Some(100),
+        33 | 34 => Some(5000),
+        35 => Some(u32::MAX as usize),
+        36 => Some((1usize << 32) + 1),
+        37 => Some(3 * (1usize << 32)),
+        38 => Some(1usize << 32),
+        _ => Some(usize::MAX),
+    }
+}
+
+/// general case: 0-3 machines per side
+pub fn gen_general(p: &mut Prng, id: String) -> SimCase {
+    let trace = gen_trace(p);
+    let delay_ns = *p.pick(DELAYS);
+    let nmc = *p.pick(&[0usize, 1, 1, 1, 2, 3]);
+    let nms = *p.pick(&[0usize, 0, 1, 1, 2, 3]);
+    let mut mc: Vec<Machine> = (0..nmc).map(|_| gen_sim_machine(p, true)).collect();
+    let mut ms: Vec<Machine> = (0..nms).map(|_| gen_sim_machine(p, true)).collect();
+    if p.chance(1, 10) {
+        mc = t_replace_pair(p);
+    }
+    if p.chance(1, 12) {
+        ms = t_replace_pair(p);
+    }
+    let mut c = SimCase { id, kind: "general".into(), mc, ms, trace, delay_ns, runs: vec![] };
+    let pps = gen_pps(p);
+    let main = base_run("main", p, pps);
+    expand_runs(&mut c, main, p);
+    c
+}
+
+/// no machines at all (C14)
+pub fn gen_nomachines(p: &mut Prng, id: String) -> SimCase {
+    let trace = gen_trace(p);
+    let delay_ns = *p.pick(DELAYS);
+    let mut c = SimCase { id, kind: "nomachines".into(), mc: vec![], ms: vec![], trace, delay_ns, runs: vec![] };
+    let mut main = base_run("main", p, None);
+    main.msi = 0;
+    main.mtl = *p.pick(&[0, 0, 0, 1000]);
+    expand_runs(&mut c, main, p);
+    c
+}
+
+/// blocking-heavy cases: several blocking / padding machines on one side (C16)
+pub fn gen_blocking(p: &mut Prng, id: String) -> SimCase {
+    let trace = gen_trace(p);
+    let delay_ns = *p.pick(DELAYS);
+    let pick = |p: &mut Prng| match p.below(5) {
+        0 | 1 => t_blocking(p),
+        2 => t_blocking2(p),
+        3 => t_padding(p),
+        _ => t_cancel(p),
+    };
+    let nmc = p.range(1, 3) as usize;
+    let nms = p.below(3) as usize;
+    let mut mc: Vec<Machine> = (0..nmc).map(|_| pick(p)).collect();
+    let mut ms: Vec<Machine> = (0..nms).map(|_| pick(p)).collect();
+    if p.chance(1, 3) {
+        mc = t_replace_pair(p);
+        if p.chance(1, 3) {
+            mc.push(pick(p));
+        }
+    }
+    if p.chance(1, 6) {
+        ms = t_replace_pair(p);
+    }
+    let mut c = SimCase { id, kind: "blocking".into(), mc, ms, trace, delay_ns, runs: vec![] };
+    let pps = if p.chance(1, 5) { Some(*p.pick(&[2usize, 10, 100])) } else { None };
+    let mut main = base_run("main", p, pps);
+    main.mtl = 0;
+    main.oc = false;
+    main.on = false;
+    expand_runs(&mut c, main, p);
+    c
+}
+
+/// timer / cancel heavy cases (C17, C18)
+pub fn gen_timers(p: &mut Prng, id: String) -> SimCase {
+    let trace = gen_trace(p);
+    let delay_ns = *p.pick(DELAYS);
+    let pick = |p: &mut Prng| match p.below(5) {
+        0 | 1 => t_timer(p),
+        2 => t_cancel(p),
+        3 => t_padding(p),
+        _ => t_counter(p),
+    };
+    let nmc = p.range(1, 3) as usize;
+    let nms = p.below(3) as usize;
+    let mc: Vec<Machine> = (0..nmc).map(|_| pick(p)).collect();
+    let ms: Vec<Machine> = (0..nms).map(|_| pick(p)).collect();
+    let mut c = SimCase { id, kind: "timers".into(), mc, ms, trace, delay_ns, runs: vec![] };
+    let mut main = base_run("main", p, None);
+    main.mtl = 0;
+    main.oc = false;
+    main.on = false;
+    expand_runs(&mut c, main, p);
+    c
+}
+
+pub fn gen_kind(kind: &str, p: &mut Prng, id: String) -> Option<SimCase> {
+    Some(match kind {
+        "general" => gen_general(p, id),
+        "nomachines" => gen_nomachines(p, id),
+        "blocking" => gen_blocking(p, id),
+        "timers" => gen_timers(p, id),
+        _ => return None,
+    })
+}
+
+/* ---------------- probes (DESIGN section 9) ---------------- */
+
+fn probe_run(pps: Option<usize>) -> RunSpec {
+    RunSpec { name: "u".into(), adv: true, pps, mtl: 0, msi: 200, cont: false, oc: false, on: false, fpc: 0.0, fbc: 0.0, fps: 0.0, fbs: 0.0, seed: Some(1) }
+}
+
+fn plain_machine(states: Vec<State>) -> Machine {
+    Machine { allowed_padding_packets: 0, max_padding_frac: 0.0, allowed_blocked_microsec: 0, max_blocking_frac: 0.0, states }
+}
+
+/// Minimal hand-made cases for the deviations found while designing (F5, F7, F10, F11).
+pub fn probes() -> Vec<SimCase> {
+    let mut res = Vec::new();
+    // F5: pps = 2^32 truncates to 0 in `window / pps as u32`
+    res.push(SimCase { id: "probe-F5-pps-2pow32".into(), kind: "probe".into(), mc: vec![], ms: vec![], trace: vec![(0, true)], delay_ns: 0, runs: vec![probe_run(Some(1usize << 32))] });
+    // F7: non-bypass block extended by a bypass block, then bypass padding
+    {
+        let s0 = State::new(enum_map! { Event::NormalSent => tr1(1), _ => vec![] });
+        let mut s1 = State::new(enum_map! { Event::BlockingBegin => tr1(2), _ => vec![] });
+        s1.action = Some(Action::BlockOutgoing { bypass: false, replace: false, timeout: konst(0.0), duration: konst(10_000.0), limit: None });
+        let mut s2 = State::new(enum_map! { Event::BlockingBegin => tr1(3), _ => vec![] });
+        s2.action = Some(Action::BlockOutgoing { bypass: true, replace: false, timeout: konst(0.0), duration: konst(20_000.0), limit: None });
+        let mut s3 = State::new(enum_map! { _ => vec![] });
+        s3.action = Some(Action::SendPadding { bypass: true, replace: false, timeout: konst(1000.0), limit: None });
+        res.push(SimCase { id: "probe-F7-bypass-extension".into(), kind: "probe".into(), mc: vec![plain_machine(vec![s0, s1, s2, s3])], ms: vec![], trace: vec![(0, true), (50_000_000, true)], delay_ns: 1_000_000, runs: vec![probe_run(None)] });
+    }
+    // F10: UpdateTimer with duration 0, no timer running, no replace
+    {
+        let s0 = State::new(enum_map! { Event::NormalSent => tr1(1), _ => vec![] });
+        let mut s1 = State::new(enum_map! { _ => vec![] });
+        s1.action = Some(Action::UpdateTimer { replace: false, duration: konst(0.0), limit: None });
+        res.push(SimCase { id: "probe-F10-timer-zero".into(), kind: "probe".into(), mc: vec![plain_machine(vec![s0, s1])], ms: vec![], trace: vec![(0, true), (5_000_000, true)], delay_ns: 1_000_000, runs: vec![probe_run(None)] });
+    }
+    // S1: a BlockOutgoing selected by pick_next is executed at selection time, before it is due:
+    // the blocking expiry / bypass flag change early, and a newer action does not supersede it
+    {
+        let a0 = State::new(enum_map! { Event::NormalSent => tr1(1), _ => vec![] });
+        let mut a1 = State::new(enum_map! { _ => vec![] });
+        a1.action = Some(Action::BlockOutgoing { bypass: false, replace: false, timeout: konst(0.0), duration: konst(100_000.0), limit: None });
+        let b0 = State::new(enum_map! { Event::NormalSent => tr1(1), _ => vec![] });
+        let mut b1 = State::new(enum_map! { _ => vec![] });
+        b1.action = Some(Action::SendPadding { bypass: true, replace: false, timeout: konst(10_000.0), limit: None });
+        let c0 = State::new(enum_map! { Event::NormalSent => tr1(1), _ => vec![] });
+        let blk = Action::BlockOutgoing { bypass: true, replace: true, timeout: konst(50_000.0), duration: konst(1_000.0), limit: None };
+        let mut c1 = State::new(enum_map! { Event::TunnelSent => tr1(2), _ => vec![] });
+        c1.action = Some(blk.clone());
+        let mut c2 = State::new(enum_map! { Event::TunnelSent => tr1(1), _ => vec![] });
+        c2.action = Some(blk);
+        res.push(SimCase {
+            id: "probe-S1-early-block-execution".into(),
+            kind: "probe".into(),
+            mc: vec![plain_machine(vec![a0, a1]), plain_machine(vec![b0, b1]), plain_machine(vec![c0, c1, c2])],
+            ms: vec![],
+            trace: vec![(0, true), (200_000_000, true)],
+            delay_ns: 1_000_000,
+            runs: vec![probe_run(None)],
+        });
+    }
+    // F11: BlockOutgoing with duration 0 (no blocking active), without and with replace
+    for (replace, id) in [(false, "probe-F11-block-zero"), (true, "probe-F11b-block-zero-replace")] {
+        let s0 = State::new(enum_map! { Event::NormalSent => tr1(1), _ => vec![] });
+        let mut s1 = State::new(enum_map! { _ => vec![] });
+        s1.action = Some(Action::BlockOutgoing { bypass: false, replace, timeout: konst(0.0), duration: konst(0.0), limit: None });
+        res.push(SimCase { id: id.into(), kind: "probe".into(), mc: vec![plain_machine(vec![s0, s1])], ms: vec![], trace: vec![(0, true), (5_000_000, true)], delay_ns: 1_000_000, runs: vec![probe_run(None)] });
+    }
+    res
+}
+
+/// input-only text of a case (what `sim-replay` reads)
+pub fn case_inputs(c: &SimCase) -> String {
+    let mut out = String::new();
+    let _ = writeln!(out, "case {} {}", c.id, c.kind);
+    for m in &c.mc {
+        let _ = writeln!(out, "mc {}", hex(&genm::machine_bytes(m)));
+    }
+    for m in &c.ms {
+        let _ = writeln!(out, "ms {}", hex(&genm::machine_bytes(m)));
+    }
+    let tr: Vec<String> = c.trace.iter().map(|(t, s)| format!("{}:{}", t, if *s { "s" } else { "r" })).collect();
+    let _ = writeln!(out, "tr {} {}", c.trace.len(), tr.join(" "));
+    let _ = writeln!(out, "delay {}", c.delay_ns);
+    for r in &c.runs {
+        fmt_run_line(&mut out, r);
+    }
+    let _ = writeln!(out, "end");
+    out
+}
+
+/* ---------------- replay ---------------- */
+
+fn parse_f64_bits(s: &str) -> f64 {
+    f64::from_bits(u64::from_str_radix(s, 16).unwrap_or(0))
+}
+
+/// Parse the input lines of a protocol file (ignoring `o` and `orc` lines) back into cases.
+pub fn parse_cases(text: &str) -> Vec<SimCase> {
+    use bincode::Options;
+    let mut res = Vec::new();
+    let mut cur: Option<SimCase> = None;
+    for line in text.lines() {
+        let ws: Vec<&str> = line.split_whitespace().collect();
+        match ws.as_slice() {
+            ["case", id, kind @ ..] => {
+                cur = Some(SimCase { id: id.to_string(), kind: kind.join(" "), mc: vec![], ms: vec![], trace: vec![], delay_ns: 0, runs: vec![] });
+            }
+            [side @ ("mc" | "ms"), h] => {
+                if let (Some(c), Some(b)) = (cur.as_mut(), unhex(h)) {
+                    if let Ok(m) = bincode::DefaultOptions::new().deserialize::<Machine>(&b) {
+                        if *side == "mc" {
+                            c.mc.push(m)
+                        } else {
+                            c.ms.push(m)
+                        }
+                    }
+                }
+            }
+            ["tr", _n, items @ ..] => {
+                if let Some(c) = cur.as_mut() {
+                    for it in items {
+                        if let Some((t, d)) = it.split_once(':') {
+                            if let Ok(t) = t.parse::<u64>() {
+                                c.trace.push((t, d == "s"));
+                            }
+                        }
+                    }
+                }
+            }
+            ["delay", d] => {
+                if let Some(c) = cur.as_mut() {
+                    c.delay_ns = d.parse().unwrap_or(0);
+                }
+            }
+            ["run", name, api, pps, mtl, msi, cont, oc, on, fpc, fbc, fps, fbs, seed] => {
+                if let Some(c) = cur.as_mut() {
+                    c.runs.push(RunSpec {
+                        name: name.to_string(),
+                        adv: *api == "adv",
+                        pps: pps.parse().ok(),
+                        mtl: mtl.parse().unwrap_or(0),
+                        msi: msi.parse().unwrap_or(0),
+                        cont: *cont == "1",
+                        oc: *oc == "1",
+                        on: *on == "1",
+                        fpc: parse_f64_bits(fpc),
+                        fbc: parse_f64_bits(fbc),
+                        fps: parse_f64_bits(fps),
+                        fbs: parse_f64_bits(fbs),
+                        seed: seed.parse().ok(),
+                    });
+                }
+            }
+            ["end"] => {
+                if let Some(c) = cur.take() {
+                    res.push(c);
+                }
+            }
+            _ => {}
+        }
+    }
+    res
+}
+
+/// A replayed run without any bound could hang the harness: give unbounded runs of cases with
+/// machines the probe's iteration cap unless the probe shows that the run ends on its own.
+fn make_safe(c: &mut SimCase) {
+    let no_machines = c.mc.is_empty() && c.ms.is_empty();
+    if no_machines {
+        return;
+    }
+    for i in 0..c.runs.len() {
+        let r = c.runs[i].clone();
+        let bounded = r.msi > 0 || (r.mtl > 0 && !r.on && !r.oc);
+        if bounded {
+            continue;
+        }
+        if !r.adv || r.seed.is_none() {
+            // random source not reproducible: cannot probe
+            c.runs[i].mtl = if r.mtl > 0 { r.mtl } else { PROBE_ITERS };
+            c.runs[i].on = false;
+            c.runs[i].oc = false;
+            continue;
+        }
+        let mut probe = r.clone();
+        probe.mtl = 0;
+        probe.oc = false;
+        probe.on = false;
+        probe.msi = PROBE_ITERS;
+        let ok = match run_once(c, &probe).res {
+            Ok(evs) => evs.len() < PROBE_ITERS,
+            Err(_) => true,
+        };
+        if !ok {
+            c.runs[i].msi = PROBE_ITERS;
+        }
+    }
+}
 
 /// Returns false if `sub` is not a command of this module.
-pub fn cmd(sub: &str, _args: &[String], _w: &mut dyn Write) -> bool {
+pub fn cmd(sub: &str, args: &[String], w: &mut dyn Write) -> bool {
     match sub {
+        "sim-gen" => {
+            let seed: u64 = crate::arg_val(args, "--seed").and_then(|s| s.parse().ok()).unwrap_or(1);
+            let cases: u64 = crate::arg_val(args, "--cases").and_then(|s| s.parse().ok()).unwrap_or(100);
+            let kind = crate::arg_val(args, "--kind").unwrap_or_else(|| "general".into());
+            let mut h: u64 = 0xcbf29ce484222325;
+            for b in kind.bytes() {
+                h ^= b as u64;
+                h = h.wrapping_mul(0x100000001b3);
+            }
+            let mut p = Prng::new(seed ^ h ^ 0x5151);
+            for i in 0..cases {
+                let mut cp = p.fork();
+                let id = format!("sim-{}-{}-{}", kind, seed, i);
+                match gen_kind(&kind, &mut cp, id) {
+                    Some(c) => {
+                        let _ = w.write_all(run_case(&c).as_bytes());
+                        if TIMED_OUT.load(std::sync::atomic::Ordering::SeqCst) {
+                            // a simulator call is still spinning: stop here, the case above reports it
+                            let _ = w.flush();
+                            std::process::exit(0);
+                        }
+                    }
+                    None => {
+                        eprintln!("unknown sim kind {kind}");
+                        std::process::exit(2);
+                    }
+                }
+            }
+            true
+        }
+        "sim-probes" => {
+            // input-only case files of the hand-made probes; with `--run` also run them
+            let run = args.iter().any(|a| a == "--run");
+            for c in probes() {
+                let text = if run { run_case(&c) } else { case_inputs(&c) };
+                let _ = w.write_all(text.as_bytes());
+            }
+            true
+        }
+        "sim-replay" => {
+            let mut text = String::new();
+            let _ = std::io::Read::read_to_string(&mut std::io::stdin(), &mut text);
+            for mut c in parse_cases(&text) {
+                make_safe(&mut c);
+                let _ = w.write_all(run_case(&c).as_bytes());
+                if TIMED_OUT.load(std::sync::atomic::Ordering::SeqCst) {
+                    let _ = w.flush();
+                    std::process::exit(0);
+                }
+            }
+            true
+        }
         _ => false,
     }
 }
